@@ -317,9 +317,8 @@ def lift2(vm, s, a, b, fn):
                     out.append((g, fn(x, y)))
                 except VMRaise as e:
                     vm.raise_under(s, TRUE, e.exc)
-                except Unsupported:
-                    if vm.feasible(AND(s.guard, s.cg)):
-                        raise
+                except Unsupported as e:
+                    vm.unsupported_alt(s, e)
                 except Exception as e:
                     vm.raise_under(s, TRUE, e)
     finally:
@@ -346,9 +345,8 @@ def lift1(vm, s, a, fn):
                 out.append((ga, fn(x)))
             except VMRaise as e:
                 vm.raise_under(s, TRUE, e.exc)
-            except Unsupported:
-                if vm.feasible(AND(s.guard, s.cg)):
-                    raise
+            except Unsupported as e:
+                vm.unsupported_alt(s, e)
             except Exception as e:
                 vm.raise_under(s, TRUE, e)
     finally:
@@ -1176,9 +1174,8 @@ def _load_attr(vm, s, f, ins):
                 except VMRaise as e:
                     vm.raise_under(s, TRUE, e.exc)
                     continue
-                except Unsupported:
-                    if vm.feasible(AND(s.guard, s.cg)):
-                        raise
+                except Unsupported as e:
+                    vm.unsupported_alt(s, e)
                     continue
                 res.append((g, VMethod(v, x) if kind == "method" else v))
         finally:
